@@ -758,12 +758,11 @@ native_long_sign(arg_t *arg, asn1cnst_range_t *r) {
 	&& r->right.type == ARE_VALUE
 	&& r->right.value > 2147483647
 	&& r->right.value <= (asn1c_integer_t)(4294967295UL)) {
-		if(r->el_count == 0
-		&& r->left.value == 0
-		&& r->right.value == 4294967295UL)
-			return 0;
-		else
-			return 1;
+		/*
+		 * "unsigned long" is wider than 32 bits on LP64 targets:
+		 * (0..4294967295) needs its upper bound checked like any other.
+		 */
+		return 1;
 	} else {
 		return -1;
 	}
